@@ -87,6 +87,8 @@ class Engine(FsMixin, ExprMixin, StmtMixin, CallMixin, SpecMixin, BuiltinMixin, 
         self.frontier = z3.Int("FRONTIER")
         self.frontier_blocks = []
         self.glob_hooks = []
+        self._iter_start = None
+        self.missing = {}
         self._consts_done = set()
         self._nsent = 0
         self.fs_write_hooks = []
@@ -125,9 +127,13 @@ class Engine(FsMixin, ExprMixin, StmtMixin, CallMixin, SpecMixin, BuiltinMixin, 
     def load(self, key, rel, qualname=None, inline=False, prop=False):
         """make the real function 'key' (Class.method or function) available"""
         qualname = qualname or key
-        node = self.src.find(rel, qualname)
+        try:
+            node = self.src.find(rel, qualname)
+        except (OSError, SyntaxError) as e:
+            node = None
         if node is None:
-            raise KeyError(f"function {qualname} not found in {rel}")
+            self.missing[key] = f"function {qualname} not found in {rel}"
+            return None
         node = strip(node)
         self.module_consts(rel)
         cls = qualname.rsplit(".", 1)[0].split(".")[-1] if "." in qualname else None
@@ -202,6 +208,9 @@ class Engine(FsMixin, ExprMixin, StmtMixin, CallMixin, SpecMixin, BuiltinMixin, 
         t0 = time.time()
         self.reset()
         c = self.reg.contracts[key]
+        if key in self.missing or key not in self.functions:
+            return dict(key=key, name=name or key, line=0, hash=None, error=self.missing.get(key, "function not loaded"),
+                        obligations=[], trivial=[], undecided=[])
         fn, cls = self.functions[key]
         self.current_class = cls
         self.loops = c.get("loops", {})
